@@ -87,6 +87,22 @@ Theorem C06_array_key_not_scalar : forall name idx k, comma_free k -> array_key 
 Proof. exact array_key_not_scalar. Qed.
 Print Assumptions C06_array_key_not_scalar.
 
+(* ---- SWAP (proofs in Proofs/Swap.v): the code SWAP a,b compiles to, run on the VM ---- *)
+From BL Require Import Proofs.ExprCompile Proofs.Swap.
+
+Theorem C06_swap_exchanges : forall O h a b r va vb vs1 vs2, r_slen r + 2 <= MAX_POOL ->
+  var_fetch (r_vars r) a = Ok va -> var_fetch (r_vars r) b = Ok vb -> same_kind vb va = true ->
+  var_store (r_vars r) b va = Ok vs1 -> var_store vs1 a vb = Ok vs2 ->
+  run_ops O h (swap_code a b) r = (set_vars r vs2, Ok tt).
+Proof. exact swap_exchanges. Qed.
+Print Assumptions C06_swap_exchanges.
+
+Theorem C06_swap_mixed_rejected : forall O h a b r va vb, r_slen r + 2 <= MAX_POOL ->
+  var_fetch (r_vars r) a = Ok va -> var_fetch (r_vars r) b = Ok vb -> same_kind vb va = false ->
+  snd (run_ops O h (swap_code a b) r) = err E_TypeMismatch /\ r_vars (fst (run_ops O h (swap_code a b) r)) = r_vars r.
+Proof. exact swap_mixed_rejected. Qed.
+Print Assumptions C06_swap_mixed_rejected.
+
 (* non-vacuity: a typed store with a scalar and an array element; DEFINT A-B drops the Single in A, keeps A! and Z *)
 Definition C06_witness_run : option (res val * res val * res val) :=
   match var_store vars_empty (s2l "A"%string) (VSng 1069547520) with            (* A = 1.5 *)
